@@ -34,6 +34,10 @@ FIXED = [
   "score used mult where fit uses 1-mult (scored the pinball loss of 1-q) and divided by n instead of the weight sum"),
  ("C18", "non_linear_correlations:array:raises-TypeError:single-column", "accepts a numpy array with a single column",
   "numpy.corrcoef returns a 0-d scalar for one column: non_linear_correlations raised TypeError on a one-column array (square_shape unprovable)"),
+ ("C20", "ts_mape:zero-denominator-raises-AttributeError", "ts_mape returns numpy.inf",
+  "ts_mape used numpy.infty (removed in numpy 2): AttributeError instead of +inf when the naive-forecast denominator is 0 and the error is not (replay expected=[0,0], predicted=[0,2]); theorem mape_consts failed"),
+ ("C19", "CategoriesToIntegers.transform:skip_errors-stale-indicator", "CategoriesToIntegers.transform skips an unseen category",
+  "with skip_errors=True an unseen category fell through to res[i, p] = 1.0 with the previous cell's stale p (or UnboundLocalError on the first cell); theorem unseen_branch_never_writes failed"),
 ]
 log = subprocess.run(["git", "-C", "/repo", "log", "--format=%h\t%s"], stdout=subprocess.PIPE, text=True).stdout.split("\n")
 def find(sub):
